@@ -16,7 +16,7 @@ FORMULA_ROWS = {
     "Drain::drop": ["C02", "C03"], "Splice::drop": ["C02", "C03", "C11", "C05"],
     "slot-pointer": ["C01", "C13", "C05"], "view:": ["C12", "C05"], "set_len": ["C12"], "iter-range": ["C01", "C14"],
     "reserve": ["C10"], "reserve_exact": ["C10"], "shrink_to_fit": ["C10", "C05"], "shrink_to": ["C10", "C05"],
-    "clone": ["C08"], "into_range": ["C02"], "heap-expand": ["C10"], "expand_exact": ["C10"], "build_with_size": ["C10"],
+    "clone": ["C08", "C05"], "TempValue::": ["C01", "C03", "C06"], "swap_unchecked": ["C13"], "bytes-ptr-agree": ["C13"], "into_range": ["C02"], "heap-expand": ["C10"], "expand_exact": ["C10"], "build_with_size": ["C10"],
 }
 
 
